@@ -39,7 +39,7 @@ CONSTANTS Starts,      \* range query start times
 
 VARIABLES rq, res
 
-vars == <<store, expr, stage, nwr, rq, res>>
+vars == <<store, expr, stage, nwr, nruns, rq, res>>
 View == <<store, expr, stage, rq>>
 
 Init == BuildInit /\ rq = None /\ res = None
@@ -49,7 +49,7 @@ EvaluateRange(qs, n, step, slack, lb) ==
   /\ slack < step
   /\ stage' = "eval"
   /\ rq' = [k |-> "range", qs |-> qs, qe |-> qs + n * step + slack, step |-> step, lb |-> lb]
-  /\ UNCHANGED <<store, expr, nwr, res>>
+  /\ UNCHANGED <<store, expr, nwr, nruns, res>>
 
 \* offset law: only for queries without @ and without functions of the evaluation time
 \* (timestamp() of anything but a bare selector returns the evaluation time)
@@ -70,7 +70,7 @@ EvaluateOffset(t, d, lb) ==
   /\ stage = "query" /\ expr # None /\ ExprType(expr) = "vector" /\ Offsetable(expr)
   /\ stage' = "eval"
   /\ rq' = [k |-> "offset", t |-> t, d |-> d, lb |-> lb]
-  /\ UNCHANGED <<store, expr, nwr, res>>
+  /\ UNCHANGED <<store, expr, nwr, nruns, res>>
 
 -----------------------------------------------------------------------------
 Ser == DOMAIN store
@@ -117,7 +117,7 @@ Finish ==
                             /\ ImplInstantQuery(store, qo, rq.t, rq.lb, DefStep, AllFixes)
                                = Eval(store, qo, rq.t, ctx1),
                      kf |-> "", implr |-> <<>>, impli |-> <<>>]
-  /\ UNCHANGED <<store, expr, nwr, rq>>
+  /\ UNCHANGED <<store, expr, nwr, nruns, rq>>
 
 Next == \/ BuildNext /\ UNCHANGED <<rq, res>>
         \/ \E qs \in Starts, n \in NSteps, st \in StepSizes, sl \in Slacks, lb \in Lookbacks :
